@@ -19,7 +19,7 @@ ANCHORS = ['phylib.io.datasets:download_file', 'phylib.io.datasets:_check_md5_of
 RULE = ('A scripted HTTP server on 127.0.0.1 (real sockets, real `requests`) serves, per case, a scripted '
         'sequence of data responses and a checksum behaviour; the case also fixes the prior state of the '
         'target file. EVERY data script of length 1..3 over {good, corrupt, 404} x checksum {correct, wrong, '
-        'missing} x prior file {absent, valid, corrupt} = 351 cases (quick and thorough) + 24 cases with near-collision / truncated / empty / 150 KiB bodies and failing HEAD; thorough adds random '
+        'missing} x prior file {absent, valid, corrupt} = 351 cases (quick and thorough) + 24 cases with near-collision / truncated / empty / 150 KiB bodies and failing HEAD; plus 6 histories of 2-3 calls for the same url and path with the server and the local file changing in between; thorough adds random '
         'truncated / empty / 150 KiB multi-chunk bodies, failing HEAD requests and per-request checksum '
         'scripts. The monitor is the server request log (M5) + return/exception + final file bytes, judged '
         'against the retry state machine of the statement. non-trivial = distinct scripts whose first '
@@ -27,7 +27,7 @@ RULE = ('A scripted HTTP server on 127.0.0.1 (real sockets, real `requests`) ser
 EXHAUSTIVE = {'quick': True, 'thorough': True}
 EXHAUSTIVE_SCOPE = {'quick': 'all 351 scripted fault sequences of the quantifier',
                     'thorough': 'the same 351 plus sampled extended fault kinds'}
-FLOORS = {'quick': {'evaluations': 390, 'distinct_nontrivial': 200, 'monitors': {'M5.data_get': 300}},
+FLOORS = {'quick': {'evaluations': 400, 'distinct_nontrivial': 200, 'monitors': {'M5.data_get': 300}},
           'thorough': {'evaluations': 5000, 'distinct_nontrivial': 2000, 'monitors': {'M5.data_get': 3000}}}
 ASSUMPTIONS = ['loopback HTTP is available in the sandbox; proxies disabled via no_proxy',
                'when the checksum is unavailable only "an HTTP error raises" and "file = last body served" '
@@ -155,6 +155,17 @@ def run_shard(desc, ctx):
     extra += [{'data': dd, 'md5': mm, 'prior': pr, 'good': 'good', 'head': 'ok'}
               for dd in (['corrupt', 'corrupt'], ['corrupt'], ['good'], ['corrupt', 'good'])
               for mm in ('upper', 'garbage') for pr in ('absent', 'corrupt')]
+    hist = [
+        [{'data': ['good'], 'md5': 'correct'}, {'data': ['corrupt', 'corrupt'], 'md5': 'correct', 'mutate': 'corrupt'}],
+        [{'data': ['good'], 'md5': 'correct'}, {'data': ['corrupt', 'good'], 'md5': 'correct', 'mutate': 'corrupt'}],
+        [{'data': ['good'], 'md5': 'correct'}, {'data': ['good'], 'md5': 'correct'}, {'data': ['corrupt'], 'md5': 'wrong'}],
+        [{'data': ['corrupt', 'corrupt'], 'md5': 'correct'}, {'data': ['good'], 'md5': 'correct'}],
+        [{'data': ['good'], 'md5': 'missing'}, {'data': ['corrupt', 'corrupt'], 'md5': 'correct', 'mutate': 'corrupt'}],
+        [{'data': ['good'], 'md5': 'correct'}, {'data': ['404'], 'md5': 'correct', 'mutate': 'delete'}, {'data': ['good'], 'md5': 'correct'}],
+    ]
+    for i, steps in enumerate(hist):
+        if i % desc['n'] == desc['shard']:
+            run_case({'steps': steps}, ctx)
     for i, c in enumerate(extra):
         if i % desc['n'] == desc['shard']:
             if c['data'][0].startswith('big'):
@@ -225,18 +236,43 @@ def expected(case):
     return 'return', gets, d2, verified_all and v is True
 
 
-def run_case(case, ctx):
+def run_case(case, ctx, shared=None):
+    if 'steps' in case:
+        # history: several download calls for the SAME url and target path in one process; between the calls
+        # the server behaviour and the local file change. Every call is judged on its own.
+        sh = {'path': None, 'dir': scratch_dir('c20h_')}
+        try:
+            for i, step in enumerate(case['steps']):
+                out = os.path.join(sh['dir'], 'file.bin')
+                mut = step.get('mutate')
+                if mut == 'corrupt' and os.path.exists(out):
+                    open(out, 'wb').write(CORRUPT + b'y')
+                elif mut == 'delete' and os.path.exists(out):
+                    os.remove(out)
+                cur = open(out, 'rb').read() if os.path.exists(out) else None
+                prior = 'absent' if cur is None else ('valid' if cur == BODIES[step.get('good', 'good')] else 'corrupt')
+                run_case(dict(step, prior=prior, good=step.get('good', 'good'), head='ok', step=i), ctx, shared=sh)
+        finally:
+            shutil.rmtree(sh['dir'], ignore_errors=True)
+        return
     from phylib.io.datasets import download_file
     from phylib.utils import event as ev
     srv = server()
-    _COUNTER[0] += 1
-    path = '/c%d_%d/file.bin' % (os.getpid(), _COUNTER[0])
+    if shared is not None and shared['path']:
+        path = shared['path']
+    else:
+        _COUNTER[0] += 1
+        path = '/c%d_%d/file.bin' % (os.getpid(), _COUNTER[0])
+        if shared is not None:
+            shared['path'] = path
     url = 'http://127.0.0.1:%d%s' % (srv.server_address[1], path)
-    d = scratch_dir('c20_')
+    d = shared['dir'] if shared is not None else scratch_dir('c20_')
     out = os.path.join(d, 'file.bin')
     good = case['good']
     prior_bytes = {'absent': None, 'valid': BODIES[good], 'corrupt': CORRUPT + b'x', 'empty': b''}[case['prior']]
-    if prior_bytes is not None:
+    if shared is not None:
+        prior_bytes = open(out, 'rb').read() if os.path.exists(out) else None     # state left by the previous step
+    elif prior_bytes is not None:
         with open(out, 'wb') as f:
             f.write(prior_bytes)
     sc = {'data': list(case['data']), 'md5': list(case['md5']) if isinstance(case['md5'], list) else case['md5'],
@@ -296,4 +332,5 @@ def run_case(case, ctx):
         with State.lock:
             State.scripts.pop(path, None)
         ev.reset()
-        shutil.rmtree(d, ignore_errors=True)
+        if shared is None:
+            shutil.rmtree(d, ignore_errors=True)
